@@ -9,7 +9,8 @@
 // one long-lived router stack through the real switch handler and router
 // worker with frames sealed by the real keys of an authenticated peer, in
 // sequences; plus two routers running handshakes with each other at the same
-// time. Stage T: outcome of every input (handled / dropped / panic /
+// time; plus frames routed on all CPUs while the links of the router come and
+// go (churn.go). Stage T: outcome of every input (handled / dropped / panic /
 // stalled), double releases and the router's liveness afterwards are judged
 // by TLC (FrameLifecycle_Trace).
 package main
@@ -20,6 +21,7 @@ import (
 	"math/rand"
 	"net"
 	"net/netip"
+	"os"
 	"runtime/debug"
 	"sort"
 	"strings"
@@ -883,7 +885,7 @@ func main() {
 }
 
 func run(c *vf.Ctx) {
-	c.Rule("M: TLC exhaustive on FrameLifecycle: ownership of a frame buffer over every exit path of reader, switch, router worker, handlers and writers; 50 input classes (pipeline stage x malformation kind). R: every class expanded with seeded structured generation (quick 24 / thorough 1500 instances per class) and fed to the real parser, the real link set-up and reader (before / during / after the handshake), one long-lived router through the real switch handler and router worker with frames sealed by an authenticated peer's real keys, concurrent handshakes between the same routers, and floods of tens of thousands of well-formed frames of one authenticated peer that differ pairwise in the field the router keeps state for (made-up sources of frames that would loop, throw-away identities, ports), with a tick of the real cleaners and probes of other peers. T: outcome of every input, double releases and liveness judged by TLC. distinct = distinct (class, instance) inputs")
+	c.Rule("M: TLC exhaustive on FrameLifecycle: ownership of a frame buffer over every exit path of reader, switch, router worker, handlers and writers; 50 input classes (pipeline stage x malformation kind). R: every class expanded with seeded structured generation (quick 24 / thorough 1500 instances per class) and fed to the real parser, the real link set-up and reader (before / during / after the handshake), one long-lived router through the real switch handler and router worker with frames sealed by an authenticated peer's real keys, concurrent handshakes between the same routers, and floods of tens of thousands of well-formed frames of one authenticated peer that differ pairwise in the field the router keeps state for (made-up sources of frames that would loop, throw-away identities, ports), with a tick of the real cleaners and probes of other peers; and a stream of frames of permanent peers (transit for direct, announced and unknown routers, source routed by label, pings whose reply is routed) through the real switch handler and router worker on all CPUs WHILE other goroutines register and close links of the same router (some hundred coming and going peers with the routes they announce, real link set-ups and closes), every call under the world's time limit. T: outcome of every input, double releases and liveness judged by TLC. distinct = distinct (class, instance) inputs")
 	c.Assume("inputs are generated inside each class, not enumerated; TLC guarantees that every class and every ownership path is exercised", "a recovered panic counts as a panic (the manager backs the worker off)")
 	world.InstallLogCapture()
 
@@ -929,6 +931,14 @@ func run(c *vf.Ctx) {
 		trace = append(trace, o)
 		c.Eval(1)
 		c.Distinct(fmt.Sprintf("%s/%s/%d", o.Stage, o.Kind, len(all)))
+	}
+
+	// debugging aid: VERIF_C13_ONLY=churn runs stage M, the churn stage and stage T only; it never ends with exit 0
+	if os.Getenv("VERIF_C13_ONLY") == "churn" {
+		churnStage(c, rng, record, classes["churn"])
+		judge(c, trace, all)
+		c.Broken("VERIF_C13_ONLY is set: only a part of the check has run")
+		return
 	}
 
 	// ---- sealed + parse: one long-lived router
@@ -1064,8 +1074,10 @@ func run(c *vf.Ctx) {
 	}
 	// ---- responses racing the retry of their request (PingPong.tla), on the long-lived router
 	pingPongStage(c, s, rng, record)
+	// ---- frames routed on all CPUs while the links of the router come and go (a router of its own)
+	churnSkipped := churnStage(c, rng, record, classes["churn"])
 	// ---- state one authenticated peer can make the long-lived router keep (last: a stalled worker ends the use of the router)
-	floodSkipped := floodStage(c, s, rng, record, classes["flood"])
+	floodSkipped := floodStage(c, s, rng, record, classes["flood"]) + churnSkipped
 	c.Logf("R: %d inputs", len(all))
 	byOutcome := map[string]int{}
 	seenClass := map[string]bool{}
@@ -1124,7 +1136,11 @@ func run(c *vf.Ctx) {
 	}
 	c.Sample(all[0])
 
-	// ---- T
+	judge(c, trace, all)
+}
+
+// judge is stage T: TLC decides about the recorded inputs; what it rejects is named from the observations.
+func judge(c *vf.Ctx, trace []any, all []obs) {
 	rejectAt, inv, tres, err := c.TraceCheck("FrameLifecycle_Trace", "FrameLifecycle_Trace.cfg", trace, vf.TLCOpts{Timeout: 20 * time.Minute})
 	if err != nil {
 		c.Fatal("T: %v", err)
